@@ -58,6 +58,11 @@ def run(kind, schema, zslots, ttl=172800, desc=None, strict=True, mods=None, ksk
         rq["bundles"] = [dict(b, id=f"b{j}{odd}-{R.randrange(10**5)}") for j, b in enumerate(rq["bundles"])]
     rq["serial"] = R.randrange(1000)
     sc = {"modules": mods or MODS, "ksks": ksks or KSKS, "schema": schema, "request": rq, "ttl": ttl, "strict": strict}
+    if odd is not None and odd.strip() != odd:
+        # blanks at the ends of an identifier are part of it (xsd:string): the request is what the KSR document states, so read it from the document
+        rq["id"] = rq["id"] + odd[-1:] if odd[-1:].isspace() else odd[:1] + rq["id"]
+        rq["bundles"] = [dict(b, id=(odd[:1] if odd[:1].isspace() else "") + b["id"] + (odd[-1:] if odd[-1:].isspace() else "")) for b in rq["bundles"]]
+        sc["via_xml"] = True
     r = S.run_sign(sc)
     exp = S.expect(sc)
     impl = r["impl"]
@@ -151,7 +156,7 @@ for pad in (1, 3):
                                               2: {"publish": ["ksk_b"], "sign": ["ksk_a", "ksk_b"], "revoke": ["ksk_a"]}}, [[Z[0]], [Z[0]]], mods=mods_p, desc={"leading_zero_octets": pad})
 for t_ in (0, 1, 2**31 - 1):
     run("configured-ttl", {1: {"publish": ["ksk_a"], "sign": ["ksk_a"], "revoke": []}}, [[Z[0]]], ttl=t_)
-for odd_ in ("\u2028", "\u2029", "\u0085", "\u00e9\u4e2d", " ", "\u00a0", "\u2028\u2029x"):
+for odd_ in ("\u2028", "\u2029", "\u0085", "\u00e9\u4e2d", " ", "\u00a0", "\u2028\u2029x", "x ", " x", " x "):
     run("odd-identifier-characters", {1: {"publish": ["ksk_a", "ksk_b"], "sign": ["ksk_a"], "revoke": []}, 2: {"publish": ["ksk_b"], "sign": ["ksk_a", "ksk_b"], "revoke": ["ksk_a"]}},
         [[Z[0], Z[1]], [Z[1]]], odd=odd_, desc={"identifier_contains": ascii(odd_)})
 # schema missing a slot
